@@ -68,7 +68,7 @@ theorem apply_slide_{d}_{cl} (basis : Array W) (p : Pos) (x y : Nat) {hyps}
   · unfold Pos.apply
     simp [Facts.mtSlideRight, Facts.mtSlideLeft, Facts.mtSlideUp, Facts.mtSlideDown, Facts.mtPass, Facts.mtPlaceFlat,
       Facts.mtPlaceStanding, Facts.mtPlaceCapstone,
-      hw, h2, hx', hy', hxn, hyn, hidx, elems_one, hown, htop, hsz, hh1, slideLoop, slideStep, hidx2, hb1, hb2, hb3, hb4,
+      hw, h2, hx', hy', hxn, hyn, hidx, elems_one, hown, htop, hsz, hh1, slideLoop, slideStep, dispatch, openingRule, slideFrom, liftFrom, dropOn, enterSquare, Pos.setStack, hidx2, hb1, hb2, hb3, hb4,
       c1, c2, bind, Except.bind]
     apply finish_exists
     intro wg bg hwg hbg
@@ -77,7 +77,7 @@ theorem apply_slide_{d}_{cl} (basis : Array W) (p : Pos) (x y : Nat) {hyps}
     · unfold Pos.apply
       simp [Facts.mtSlideRight, Facts.mtSlideLeft, Facts.mtSlideUp, Facts.mtSlideDown, Facts.mtPass, Facts.mtPlaceFlat,
         Facts.mtPlaceStanding, Facts.mtPlaceCapstone,
-        hw, h2, hx', hy', hxn, hyn, hidx, elems_one, hown, htop, hsz, hh1, hh0, hb, slideLoop, slideStep, hidx2, hb1, hb2,
+        hw, h2, hx', hy', hxn, hyn, hidx, elems_one, hown, htop, hsz, hh1, hh0, hb, slideLoop, slideStep, dispatch, openingRule, slideFrom, liftFrom, dropOn, enterSquare, Pos.setStack, hidx2, hb1, hb2,
         hb3, hb4, c1, c2, bind, Except.bind]
       apply finish_exists
       intro wg bg hwg hbg
@@ -85,7 +85,7 @@ theorem apply_slide_{d}_{cl} (basis : Array W) (p : Pos) (x y : Nat) {hyps}
     · unfold Pos.apply
       simp [Facts.mtSlideRight, Facts.mtSlideLeft, Facts.mtSlideUp, Facts.mtSlideDown, Facts.mtPass, Facts.mtPlaceFlat,
         Facts.mtPlaceStanding, Facts.mtPlaceCapstone,
-        hw, h2, hx', hy', hxn, hyn, hidx, elems_one, hown, htop, hsz, hh1, hh0, hb, slideLoop, slideStep, hidx2, hb1, hb2,
+        hw, h2, hx', hy', hxn, hyn, hidx, elems_one, hown, htop, hsz, hh1, hh0, hb, slideLoop, slideStep, dispatch, openingRule, slideFrom, liftFrom, dropOn, enterSquare, Pos.setStack, hidx2, hb1, hb2,
         hb3, hb4, c1, c2, bind, Except.bind]
       apply finish_exists
       intro wg bg hwg hbg
